@@ -386,8 +386,9 @@ NbNoise(e) ==
               \* a send request outside Idle is refused; in Idle it is a real request (not generated)
               IF fe.nb = "idle" THEN TRUE ELSE Chk("nb response", "ErrState", e.resp.k)
          [] e.args.n = 0 ->
+              \* a radio response other than the transmit completion while transmitting is reported, not fatal
               IF fe.nb = "waitrx" THEN Chk("nb response", "NoUpdate", e.resp.k)
-              ELSE IF fe.nb = "sending" THEN TRUE ELSE Chk("nb response", "ErrState", e.resp.k)
+              ELSE Chk("nb response", "ErrState", e.resp.k)
          [] OTHER ->
               IF fe.nb \in {"waitrx", "sending"} THEN Chk("nb response", "ErrRadio", e.resp.k)
               ELSE Chk("nb response", "ErrState", e.resp.k)
